@@ -46,6 +46,11 @@ def gen_cases(rng, tier, shard):
         # a ruleset declared utf-8-sig (what chardet reports for a list saved with a byte order mark), small and with very long terminal lists
         cases.append({'cps': rng.sample(SPECIAL, 6) + [0xfeff, 0xe9], 'encoding': 'utf-8-sig', 'ngram': 2, 'coverage': 0.6})
         cases.append({'cps': [0xe9, 0x20], 'encoding': rng.choice(['utf-8', 'latin-1']), 'ngram': 2, 'coverage': 0.6, 'long_runs': True})
+        # multi-byte encodings, among them a stateful 7-bit one (ISO-2022-JP: what chardet reports for Japanese mail-style text; non-ASCII text is written with
+        # ASCII bytes between escape sequences): kana, kanji, full-width forms next to ASCII
+        cjk = [0x3055, 0x304f, 0x3089, 0x6771, 0x4eac, 0x30c6, 0x30b9, 0x30c8, 0xff21, 0x3000, 0x5c, 0x7e, 0x4e2d, 0x6587]
+        for enc in ['iso2022_jp', rng.choice(['shift_jis', 'euc_jp', 'gbk', 'big5'])]:
+            cases.append({'cps': cjk + rng.sample(SPECIAL, 4), 'encoding': enc, 'ngram': 2, 'coverage': 0.6})
         for enc in ['utf-8-sig', rng.choice(['utf-8', 'cp1251', 'latin-1'])]:
             cases.append({'cps': [0xe9, 0x44f], 'encoding': enc, 'ngram': 2, 'coverage': 0.6, 'big_lists': rng.getrandbits(32),
                           'n_digits': rng.choice([12000, 21000, 33000]), 'n_alpha': rng.choice([0, 10500])})
